@@ -71,7 +71,7 @@ def slope(X, Y, x, kw, space):
     return dS * dY
 
 
-def gen_space(space):
+def gen_space(space, negative_bcoh=False):
     kinds = RK if space == "R" else GK
 
     def gen(rng, i, tier):
@@ -93,7 +93,7 @@ def gen_space(space):
             y = y.copy()
             y[rng.random(len(y)) < 0.3] = BASE[X]
         dy = unc(rng, x)
-        kw = material(rng)
+        kw = material(rng, negative_bcoh=negative_bcoh)   # C03 quantifies over all <b_coh>^2 != 0 (partial weights c_i c_j b_i b_j can be negative); C04/C06 over <b_coh>^2 > 0
         return dict(space=space, X=X, x=tolist(x), y=tolist(y), dy=tolist(dy), kw=kw, grid=gk, data=dk,
                     int_inputs=bool(rng.random() < 0.1 and dk == "ints"))
     return gen
@@ -119,7 +119,11 @@ def evaluate_values(case):
         for Y in kinds:
             if Y == X:
                 continue
-            out, _u = conv(X, Y, xs, ys, None, kw)
+            try:
+                out, _u = conv(X, Y, xs, ys, None, kw)
+            except Exception as ex:  # noqa: BLE001
+                fails.append(f"{X}_to_{Y}: raises {type(ex).__name__} on a {len(xs)}-point grid without uncertainties ({str(ex)[:60]})")
+                continue
             kf = keyword_call_differs(impl.obj("Converter"), f"Converter.{X}_to_{Y}", [xs, ys, None], kw, (out, _u))
             if kf:
                 fails.append(kf)
